@@ -676,6 +676,10 @@ func ruleLOOP1(c *Ctx) {
 				}
 				if x.Cond == nil {
 					counts["open"]++
+					if vi.err == "" && ast.Node(it.nd) == ast.Node(vi.Fn) {
+						c.fail(key, x, "an open loop inside the VM's dispatch function: it runs out of reach of the abort flag")
+						return true
+					}
 					c.check(leaves(), key, x, "open loop with a return or break", "`for {}` without any return or break of the loop in a function reachable from VM.Run: it can never be aborted")
 					return true
 				}
@@ -805,6 +809,12 @@ func ruleLOOP1(c *Ctx) {
 				}
 				if progress || leaves() {
 					counts["progress"]++
+					// inside the dispatch function the abort flag is polled between
+					// instructions only: a loop there must have its trip count fixed
+					// before it starts (range, counted), or it can spin out of reach
+					if vi.err == "" && ast.Node(it.nd) == ast.Node(vi.Fn) {
+						c.fail(key, x, "a loop inside the VM's dispatch function other than a range or counted loop ("+w.Src(x.Cond)+"): its trip count depends on what it reads (e.g. a cycle of jumps), so it can run for ever without the abort flag being polled")
+					}
 					return true
 				}
 				c.undecided(key, x, "loop whose condition variables are never changed in its body and which has no exit: shape not understood (possible endless loop reachable from VM.Run)")
@@ -1055,4 +1065,758 @@ func ruleSYM2(c *Ctx) {
 		return strings.Contains(w.Src(is), ".store[") && containsNode(is.Body, func(m ast.Node) bool { _, ok := m.(*ast.ReturnStmt); return ok }) && strings.Contains(w.Src(is.Cond)+w.Src(is.Init), "ok")
 	})
 	c.check(!onCallerTable || keeps, "builtin-scope/shared-with-globals", nc, "builtins live in a scope of their own", "NewCompiler defines the builtin functions in the caller's symbol table, replacing entries of the same name: a host variable added as \"len\" disappears (IsDefined false, Set fails, the script sees the builtin), and `len := 3` is a redeclaration at top level but shadows the builtin inside a function or block")
+}
+
+// ---------------------------------------------------------------- CMP.6 (C10)
+
+// CMP.6: structural equality of maps. Equal lengths and, for every key of the
+// receiver, the other map's entry under the same key Equals the value - where
+// a key missing from the other map must make the result false. The value
+// handed to Equals is therefore exactly what the lookup in the other map
+// yields (nil when the key is missing: every Equals answers false to nil), or
+// the lookup is a comma-ok form whose failure returns false. Substituting
+// anything for a missing key (undefined, a default) makes {x: undefined, y: 1}
+// equal {y: 1, z: 5} in one direction only.
+func ruleCMP6(c *Ctx) {
+	w := c.W
+	p := w.Root
+	eqs := w.objectMethodDecls("Equals")
+	n := 0
+	for _, tn := range []string{"Map", "ImmutableMap"} {
+		fd := eqs[tn]
+		if fd == nil {
+			c.anchor(tn + ".Equals")
+			continue
+		}
+		var loop *ast.RangeStmt
+		ast.Inspect(fd.Body, func(nd ast.Node) bool {
+			if r, ok := nd.(*ast.RangeStmt); ok && loop == nil {
+				loop = r
+			}
+			return true
+		})
+		if loop == nil {
+			c.fail("map-equals/"+tn, fd, "no loop over the receiver's entries")
+			continue
+		}
+		n++
+		// length comparison before the loop
+		lenCmp := containsNode(fd.Body, func(nd ast.Node) bool {
+			b, ok := nd.(*ast.BinaryExpr)
+			if !ok || (b.Op != token.NEQ && b.Op != token.EQL) {
+				return false
+			}
+			lx, okx := ast.Unparen(b.X).(*ast.CallExpr)
+			ly, oky := ast.Unparen(b.Y).(*ast.CallExpr)
+			return okx && oky && IsBuiltinCall(p, lx, "len") && IsBuiltinCall(p, ly, "len") && b.Pos() < loop.Pos()
+		})
+		// the Equals call inside the loop
+		var call *ast.CallExpr
+		ast.Inspect(loop.Body, func(nd ast.Node) bool {
+			if cl, ok := nd.(*ast.CallExpr); ok && Callee(p, cl) != nil && Callee(p, cl).Name() == "Equals" && len(cl.Args) == 1 && call == nil {
+				call = cl
+			}
+			return true
+		})
+		var probs []string
+		if !lenCmp {
+			probs = append(probs, "the two maps' lengths are not compared before the entries")
+		}
+		if call == nil {
+			probs = append(probs, "entries are not compared with Equals")
+		} else {
+			isLookup := func(e ast.Expr) bool {
+				ix, ok := ast.Unparen(e).(*ast.IndexExpr)
+				if !ok {
+					return false
+				}
+				_, isMap := p.TypesInfo.Types[ix.X].Type.Underlying().(*types.Map)
+				return isMap && isObj(p, ix.Index, p.TypesInfo.ObjectOf(identOf(loop.Key)))
+			}
+			arg := ast.Unparen(call.Args[0])
+			switch {
+			case isLookup(arg):
+			default:
+				id, ok := arg.(*ast.Ident)
+				if !ok {
+					probs = append(probs, "the value compared is not the other map's entry under the same key: "+w.Src(arg))
+					break
+				}
+				obj := p.TypesInfo.Uses[id]
+				assigns, good := 0, false
+				ast.Inspect(fd.Body, func(nd ast.Node) bool {
+					as, ok := nd.(*ast.AssignStmt)
+					if !ok {
+						return true
+					}
+					for i, l := range as.Lhs {
+						lid, ok := l.(*ast.Ident)
+						if !ok || p.TypesInfo.ObjectOf(lid) != obj {
+							continue
+						}
+						assigns++
+						if i == 0 && len(as.Rhs) == 1 && isLookup(as.Rhs[0]) {
+							if len(as.Lhs) == 1 {
+								good = true
+							} else if len(as.Lhs) == 2 {
+								// comma-ok: a failed lookup must return false
+								okObj := p.TypesInfo.ObjectOf(identOf(as.Lhs[1]))
+								good = containsNode(loop.Body, func(m ast.Node) bool {
+									is, ok := m.(*ast.IfStmt)
+									if !ok {
+										return false
+									}
+									bare, neg := stripNot(is.Cond)
+									return neg && isObj(p, bare, okObj) && containsNode(is.Body, func(k ast.Node) bool {
+										r, ok := k.(*ast.ReturnStmt)
+										return ok && len(r.Results) == 1 && w.Src(r.Results[0]) == "false"
+									})
+								})
+							}
+						}
+					}
+					return true
+				})
+				if assigns != 1 || !good {
+					probs = append(probs, fmt.Sprintf("the value compared is not simply the other map's entry under the same key (%d assignments to %s): a key missing from the other map must make the maps unequal, not be replaced by another value", assigns, id.Name))
+				}
+			}
+		}
+		c.check(len(probs) == 0, "map-equals/"+tn, fd, "equal lengths and every entry Equals the other map's entry under the same key (missing → false)", strings.Join(probs, "; "))
+	}
+	if n < 2 {
+		c.fail("map-equals/count", nil, "Map.Equals / ImmutableMap.Equals not found")
+	}
+}
+
+// ---------------------------------------------------------------- JMP.3, SEM.3 (C01, C02, C03)
+
+// JMP.3: the unconditional jumps that separate alternatives (the jump over
+// the else branch of an if / conditional expression, the back edge of a loop,
+// break and continue) are emitted unconditionally once their construct is
+// being compiled: an OpJump emission may only be nested under tests of what
+// the construct *is* (`node.Else != nil`, the branch statement's token), never
+// under a test of what the compiled body looks like. An "optimisation" that
+// drops the jump when the then-branch "always returns" makes the then-branch
+// fall into the else-branch whenever that analysis is wrong.
+func ruleJMP3(c *Ctx) {
+	w := c.W
+	p := w.Root
+	n := 0
+	seq := seqKeys{}
+	for _, es := range w.emitSites() {
+		if es.Kind != "emit" || len(es.Ops) != 1 || es.Ops[0] != "OpJump" {
+			continue
+		}
+		n++
+		var stack []ast.Node
+		inspectWithStack(es.Fn, func(nd ast.Node, st []ast.Node) bool {
+			if nd == ast.Node(es.Call) {
+				stack = append([]ast.Node{}, st...)
+			}
+			return true
+		})
+		key := seq.next("jump-unconditional/" + w.ctxKey(es.Call.Pos()))
+		allowed := func(cond ast.Expr) bool {
+			ok := true
+			ast.Inspect(cond, func(m ast.Node) bool {
+				switch x := m.(type) {
+				case *ast.CallExpr:
+					ok = false // a computed property of the code being compiled
+				case *ast.SelectorExpr:
+					if f, _ := FieldSel(p, x); f != nil && f.Name() != "Else" && f.Name() != "Token" {
+						ok = false
+					}
+					return false
+				case *ast.Ident:
+					// nil, token constants and loop-context variables compared with nil are fine
+				}
+				return true
+			})
+			return ok
+		}
+		var bad []string
+		for i := len(stack) - 1; i > 0; i-- {
+			switch par := stack[i-1].(type) {
+			case *ast.IfStmt:
+				if stack[i] == ast.Node(par.Body) || (par.Else != nil && stack[i] == ast.Node(par.Else)) {
+					if !allowed(par.Cond) {
+						bad = append(bad, w.Src(par.Cond))
+					}
+				}
+			case *ast.CaseClause:
+				for _, e := range par.List {
+					if _, isType := p.TypesInfo.Types[e]; isType && p.TypesInfo.Types[e].IsType() {
+						continue
+					}
+					if !allowed(e) {
+						bad = append(bad, w.Src(e))
+					}
+				}
+			case *ast.FuncDecl, *ast.FuncLit:
+				i = 0
+			}
+		}
+		c.check(len(bad) == 0, key, es.Call, "emitted whenever the construct is compiled", "the jump that separates the alternatives of this construct is only emitted under "+strings.Join(bad, " / ")+": when that test is wrong the first alternative runs into the second")
+	}
+	if n < 5 {
+		c.fail("jump-unconditional/count", nil, fmt.Sprintf("expected >= 5 OpJump emission sites (if/else, conditional expression, loops, break, continue), found %d", n))
+	}
+}
+
+// SEM.3: compound assignment. compileAssign decides twice what kind of
+// assignment it compiles: once to load the current value of the left side as
+// the first operand, and once to emit the binary operation. Both decisions
+// are evaluated for every assignment token; they must agree (a token that
+// gets the operation but not the load pops an operand that was never pushed).
+func ruleSEM3(c *Ctx) {
+	w := c.W
+	p := w.Root
+	fd := w.FuncDecl(p, "Compiler.compileAssign")
+	if fd == nil {
+		c.anchor("Compiler.compileAssign")
+		return
+	}
+	// the operator parameter: the one of type token.Token
+	var opObj types.Object
+	for _, f := range fd.Type.Params.List {
+		for _, nm := range f.Names {
+			if o := p.TypesInfo.Defs[nm]; o != nil && strings.HasSuffix(types.TypeString(o.Type(), nil), "token.Token") {
+				opObj = o
+			}
+		}
+	}
+	// lhs parameter: the first []parser.Expr
+	var lhsObj types.Object
+	for _, f := range fd.Type.Params.List {
+		for _, nm := range f.Names {
+			if o := p.TypesInfo.Defs[nm]; o != nil && lhsObj == nil && strings.HasSuffix(types.TypeString(o.Type(), nil), "[]github.com/d5/tengo/v2/parser.Expr") {
+				lhsObj = o
+			}
+		}
+	}
+	if opObj == nil || lhsObj == nil {
+		c.anchor("compileAssign parameters (operator token, left-hand sides)")
+		return
+	}
+	loadsLHS := func(n ast.Node) bool {
+		return containsNode(n, func(m ast.Node) bool {
+			call, ok := m.(*ast.CallExpr)
+			if !ok || !isMethodOf(Callee(p, call), p.Types, "Compiler", "Compile") || len(call.Args) != 1 {
+				return false
+			}
+			ix, ok := ast.Unparen(call.Args[0]).(*ast.IndexExpr)
+			return ok && isObj(p, ix.X, lhsObj)
+		})
+	}
+	emitsBinOp := func(n ast.Node) bool {
+		return containsNode(n, func(m ast.Node) bool {
+			call, ok := m.(*ast.CallExpr)
+			if !ok || !isMethodOf(Callee(p, call), p.Types, "Compiler", "emit") || len(call.Args) < 2 {
+				return false
+			}
+			co := ConstObj(p, call.Args[1])
+			return co != nil && co.Name() == "OpBinaryOp"
+		})
+	}
+	// the two deciding statements, top level of the function
+	var loadStmt, opStmt ast.Stmt
+	for _, s := range fd.Body.List {
+		switch s.(type) {
+		case *ast.IfStmt, *ast.SwitchStmt:
+			if loadStmt == nil && loadsLHS(s) && !emitsBinOp(s) {
+				loadStmt = s
+			}
+			if opStmt == nil && emitsBinOp(s) {
+				opStmt = s
+			}
+		}
+	}
+	if loadStmt == nil || opStmt == nil {
+		c.fail("compound/anchors", fd, "compileAssign no longer has a statement that loads the left side and one that emits the binary operation")
+		return
+	}
+	// decide(stmt, tok): does the statement take its loading/emitting branch for op == tok?
+	var evalCond func(e ast.Expr, tok types.Object) (bool, bool)
+	evalCond = func(e ast.Expr, tok types.Object) (bool, bool) {
+		switch x := ast.Unparen(e).(type) {
+		case *ast.UnaryExpr:
+			if x.Op == token.NOT {
+				v, ok := evalCond(x.X, tok)
+				return !v, ok
+			}
+		case *ast.BinaryExpr:
+			switch x.Op {
+			case token.LAND, token.LOR:
+				l, ok1 := evalCond(x.X, tok)
+				r, ok2 := evalCond(x.Y, tok)
+				if !ok1 || !ok2 {
+					return false, false
+				}
+				if x.Op == token.LAND {
+					return l && r, true
+				}
+				return l || r, true
+			case token.EQL, token.NEQ:
+				var other ast.Expr
+				switch {
+				case isObj(p, x.X, opObj):
+					other = x.Y
+				case isObj(p, x.Y, opObj):
+					other = x.X
+				default:
+					return false, false
+				}
+				co := ConstObj(p, other)
+				if co == nil {
+					return false, false
+				}
+				return (co == tok) == (x.Op == token.EQL), true
+			}
+		}
+		return false, false
+	}
+	decide := func(s ast.Stmt, tok types.Object, has func(ast.Node) bool) (bool, bool) {
+		switch x := s.(type) {
+		case *ast.IfStmt:
+			v, ok := evalCond(x.Cond, tok)
+			if !ok {
+				return false, false
+			}
+			if v {
+				return has(x.Body), true
+			}
+			if x.Else != nil {
+				return has(x.Else), true
+			}
+			return false, true
+		case *ast.SwitchStmt:
+			if !isObj(p, x.Tag, opObj) {
+				return false, false
+			}
+			var def *ast.CaseClause
+			for _, cl := range x.Body.List {
+				cc := cl.(*ast.CaseClause)
+				if cc.List == nil {
+					def = cc
+				}
+				for _, e := range cc.List {
+					if ConstObj(p, e) == tok {
+						return has(cc), true
+					}
+				}
+			}
+			if def != nil {
+				return has(def), true
+			}
+			return false, true
+		}
+		return false, false
+	}
+	tk := w.Token.Types.Scope()
+	n := 0
+	for _, name := range tk.Names() {
+		co, ok := tk.Lookup(name).(*types.Const)
+		if !ok || !(strings.HasSuffix(name, "Assign") || name == "Define") || !strings.HasSuffix(co.Type().String(), "token.Token") {
+			continue
+		}
+		n++
+		a, oka := decide(loadStmt, co, loadsLHS)
+		b, okb := decide(opStmt, co, emitsBinOp)
+		if !oka || !okb {
+			c.undecided("compound/"+name, fd, "cannot evaluate compileAssign's two decisions for token "+name)
+			continue
+		}
+		c.check(a == b, "compound/"+name, fd, fmt.Sprintf("left side loaded: %v, binary operation emitted: %v", a, b), fmt.Sprintf("for %s compileAssign loads the left side: %v but emits the binary operation: %v - the operation would pop an operand that was never pushed (or leave one behind)", name, a, b))
+	}
+	if n < 10 {
+		c.fail("compound/count", fd, fmt.Sprintf("only %d assignment tokens found in package token", n))
+	}
+}
+
+// ---------------------------------------------------------------- SCAN.2 (C04)
+
+// SCAN.2: every loop of the scanner that consumes input stops at the end of
+// the input. At EOF the current character is -1 and next() no longer
+// advances, so a loop that would continue for ch == -1 never ends. Each loop
+// whose condition or exits read the scanner's current character is evaluated
+// for ch = -1 (comparisons with constants are decided; the character-class
+// helpers isLetter, isDigit and digitVal(ch) < base are false at EOF): its
+// condition must be false there, or its body must hold an exit whose condition
+// is true there.
+func ruleSCAN2(c *Ctx) {
+	w := c.W
+	p := w.Parser
+	chField := structField(p.Types, "Scanner", "ch")
+	if chField == nil {
+		c.anchor("Scanner.ch")
+		return
+	}
+	isCh := func(e ast.Expr) bool {
+		e = ast.Unparen(e)
+		if f, _ := FieldSel(p, e); f == chField {
+			return true
+		}
+		return false
+	}
+	// locals that hold a copy of the current character (`ch := s.ch`)
+	n := 0
+	seq := seqKeys{}
+	w.AllFuncDecls(p, func(fd *ast.FuncDecl) {
+		if recvTypeName(fd) != "Scanner" && fd.Name.Name != "NewScanner" {
+			return
+		}
+		copies := map[types.Object]bool{}
+		ast.Inspect(fd.Body, func(nd ast.Node) bool {
+			if as, ok := nd.(*ast.AssignStmt); ok && len(as.Lhs) == 1 && len(as.Rhs) == 1 && isCh(as.Rhs[0]) {
+				if id, ok := as.Lhs[0].(*ast.Ident); ok {
+					copies[p.TypesInfo.ObjectOf(id)] = true
+				}
+			}
+			return true
+		})
+		chLike := func(e ast.Expr) bool {
+			if isCh(e) {
+				return true
+			}
+			if id, ok := ast.Unparen(e).(*ast.Ident); ok && copies[p.TypesInfo.ObjectOf(id)] {
+				return true
+			}
+			return false
+		}
+		// value of a condition when the current character is -1
+		var atEOF func(e ast.Expr) (val, known, reads bool)
+		atEOF = func(e ast.Expr) (bool, bool, bool) {
+			switch x := ast.Unparen(e).(type) {
+			case *ast.UnaryExpr:
+				if x.Op == token.NOT {
+					v, k, r := atEOF(x.X)
+					return !v, k, r
+				}
+			case *ast.BinaryExpr:
+				switch x.Op {
+				case token.LAND, token.LOR:
+					l, lk, lr := atEOF(x.X)
+					r, rk, rr := atEOF(x.Y)
+					reads := lr || rr
+					if x.Op == token.LAND {
+						if (lk && !l) || (rk && !r) {
+							return false, true, reads
+						}
+						return l && r, lk && rk, reads
+					}
+					if (lk && l) || (rk && r) {
+						return true, true, reads
+					}
+					return l || r, lk && rk, reads
+				case token.EQL, token.NEQ, token.LSS, token.LEQ, token.GTR, token.GEQ:
+					var k int64
+					var okc, left bool
+					if chLike(x.X) {
+						k, okc = ConstInt(p, x.Y)
+						left = true
+					} else if chLike(x.Y) {
+						k, okc = ConstInt(p, x.X)
+					} else {
+						// character-class helpers applied to the character are false at EOF
+						cls := false
+						ast.Inspect(x, func(m ast.Node) bool {
+							if call, ok := m.(*ast.CallExpr); ok && len(call.Args) == 1 && chLike(call.Args[0]) {
+								if fn := Callee(p, call); fn != nil && fn.Name() == "digitVal" {
+									cls = true
+								}
+							}
+							return true
+						})
+						if cls {
+							return false, true, true
+						}
+						return false, false, false
+					}
+					if !okc {
+						return false, false, true
+					}
+					a, b := int64(-1), k
+					if !left {
+						a, b = k, int64(-1)
+					}
+					var v bool
+					switch x.Op {
+					case token.EQL:
+						v = a == b
+					case token.NEQ:
+						v = a != b
+					case token.LSS:
+						v = a < b
+					case token.LEQ:
+						v = a <= b
+					case token.GTR:
+						v = a > b
+					case token.GEQ:
+						v = a >= b
+					}
+					return v, true, true
+				}
+			case *ast.CallExpr:
+				if len(x.Args) == 1 && chLike(x.Args[0]) {
+					if fn := Callee(p, x); fn != nil && (fn.Name() == "isLetter" || fn.Name() == "isDigit") {
+						return false, true, true
+					}
+				}
+			}
+			return false, false, false
+		}
+		ast.Inspect(fd.Body, func(nd ast.Node) bool {
+			loop, ok := nd.(*ast.ForStmt)
+			if !ok {
+				return true
+			}
+			// exits inside the body that fire at EOF
+			exitAtEOF := containsNode(loop.Body, func(m ast.Node) bool {
+				is, ok := m.(*ast.IfStmt)
+				if !ok {
+					return false
+				}
+				v, k, r := atEOF(is.Cond)
+				if !(r && k && v) {
+					return false
+				}
+				return containsNode(is.Body, func(q ast.Node) bool {
+					switch z := q.(type) {
+					case *ast.ReturnStmt:
+						return true
+					case *ast.BranchStmt:
+						return z.Tok == token.BREAK || z.Tok == token.GOTO
+					}
+					return false
+				})
+			})
+			if loop.Cond == nil {
+				// an open loop that consumes input
+				consumes := containsNode(loop.Body, func(m ast.Node) bool {
+					call, ok := m.(*ast.CallExpr)
+					return ok && isMethodOf(Callee(p, call), p.Types, "Scanner", "next")
+				})
+				if !consumes {
+					return true
+				}
+				n++
+				c.check(exitAtEOF, seq.next("eof/"+funcName(fd)), loop, "the open loop leaves when the input ends", "an open loop of the scanner consumes input without an exit that fires at end of input (ch < 0): an unterminated construct at the end of the source makes scanning loop for ever")
+				return true
+			}
+			v, k, r := atEOF(loop.Cond)
+			if !r {
+				return true // not driven by the current character
+			}
+			n++
+			key := seq.next("eof/" + funcName(fd))
+			switch {
+			case k && !v:
+				c.ok(key, loop, "condition is false at end of input: "+w.Src(loop.Cond))
+			case exitAtEOF:
+				c.ok(key, loop, "the body leaves at end of input")
+			case !k:
+				c.undecided(key, loop, "cannot decide whether `"+w.Src(loop.Cond)+"` holds at end of input (ch = -1)")
+			default:
+				c.fail(key, loop, "the loop condition `"+w.Src(loop.Cond)+"` still holds at end of input (ch = -1) and the body has no exit for it: a source that ends inside this construct makes the scanner loop for ever")
+			}
+			return true
+		})
+	})
+	if n < 8 {
+		c.fail("eof/count", nil, fmt.Sprintf("expected >= 8 character-driven loops in the scanner, found %d", n))
+	}
+}
+
+// ---------------------------------------------------------------- REC.3 (C05, C07)
+
+// REC.3: who may start the VM without the recovering goroutine. VM.Run is
+// called directly (no recover around it) by Compiled.Run, the non-context
+// entry point. Every function that takes a context.Context must reach the VM
+// only through the context-aware method that REC.1 verifies: it may not call
+// VM.Run, Compiled.Run or Script.Run on any path (a "fast path" for contexts
+// that cannot be cancelled loses the recover handler: a run-time panic of the
+// script then reaches the host).
+func ruleREC3(c *Ctx) {
+	w := c.W
+	p := w.Root
+	ri := w.runContext()
+	n := 0
+	w.AllFuncDecls(p, func(fd *ast.FuncDecl) {
+		hasCtx := false
+		for _, f := range fd.Type.Params.List {
+			if t := p.TypesInfo.Types[f.Type].Type; t != nil && types.TypeString(t, nil) == "context.Context" {
+				hasCtx = true
+			}
+		}
+		if !hasCtx {
+			return
+		}
+		n++
+		name := funcName(fd)
+		var bad []string
+		inspectWithStack(fd.Body, func(nd ast.Node, stack []ast.Node) bool {
+			call, ok := nd.(*ast.CallExpr)
+			if !ok {
+				return true
+			}
+			fn := Callee(p, call)
+			if fn == nil || fn.Name() != "Run" || fn.Pkg() != p.Types {
+				return true
+			}
+			// the one place where it is right: inside the goroutine whose first
+			// statement defers the recover handler (verified by REC.1)
+			if ri.err == "" && fd == ri.Fn {
+				for _, s := range stack {
+					if s == ast.Node(ri.Go) {
+						return true
+					}
+				}
+			}
+			bad = append(bad, w.Src(call)+" ("+w.Site(call)+")")
+			return true
+		})
+		c.check(len(bad) == 0, "context-entry/"+name, fd, "reaches the VM only through the recovering goroutine", name+" takes a context but starts the VM without the recover handler: "+strings.Join(bad, ", ")+" - a run-time panic of the script reaches the embedding program")
+	})
+	if n < 2 {
+		c.fail("context-entry/count", nil, fmt.Sprintf("expected Script.RunContext and Compiled.RunContext, found %d context-taking functions", n))
+	}
+}
+
+// ---------------------------------------------------------------- NIL.1 (C05)
+
+// NIL.1: no Go nil becomes a script value. A lookup in a map[string]Object
+// yields nil for a missing key (for instance a key the script deleted while
+// iterating). Such a lookup may be used only where nil is harmless or
+// handled: as a comma-ok lookup, compared with nil, passed to Equals (every
+// Equals answers false to nil), or assigned to a variable that the function
+// tests against nil / with ok before using it. Returned or stored as it is, the
+// nil ends up on the VM stack and in variables, and the host's next call on
+// that value (String(), ToInterface, Copy) dereferences it.
+func ruleNIL1(c *Ctx) {
+	w := c.W
+	n := 0
+	seq := seqKeys{}
+	for _, p := range []pkgT{w.Root, w.Stdlib, w.JSON} {
+		w.AllFuncDecls(p, func(fd *ast.FuncDecl) {
+			inspectWithStack(fd.Body, func(nd ast.Node, stack []ast.Node) bool {
+				ix, ok := nd.(*ast.IndexExpr)
+				if !ok {
+					return true
+				}
+				tv, ok := p.TypesInfo.Types[ix.X]
+				if !ok {
+					return true
+				}
+				mt, ok := tv.Type.Underlying().(*types.Map)
+				if !ok || !types.IsInterface(mt.Elem()) {
+					return true
+				}
+				if en, _ := namedName(mt.Elem()); en != "Object" {
+					return true
+				}
+				if len(stack) < 2 {
+					return true
+				}
+				parent := stack[len(stack)-2] // the stack ends with the node itself
+				// writes and deletes are not reads
+				if as, ok := parent.(*ast.AssignStmt); ok {
+					for _, l := range as.Lhs {
+						if l == ast.Expr(ix) {
+							return true
+						}
+					}
+				}
+				n++
+				key := seq.next("map-read/" + funcName(fd))
+				good, why := false, ""
+				switch par := parent.(type) {
+				case *ast.AssignStmt:
+					if len(par.Lhs) == 2 && len(par.Rhs) == 1 {
+						if okid, isId := par.Lhs[1].(*ast.Ident); isId && okid.Name != "_" {
+							good, why = true, "comma-ok lookup"
+						}
+						break
+					}
+					// v := m[k] … tested against nil before use?
+					if len(par.Lhs) == 1 && len(par.Rhs) == 1 {
+						if id, ok := par.Lhs[0].(*ast.Ident); ok {
+							o := p.TypesInfo.ObjectOf(id)
+							tested := containsNode(fd.Body, func(m ast.Node) bool {
+								b, ok := m.(*ast.BinaryExpr)
+								return ok && (b.Op == token.EQL || b.Op == token.NEQ) && isNilIdent(b.Y) && isObj(p, b.X, o)
+							})
+							onlyEquals := true
+							uses := 0
+							ast.Inspect(fd.Body, func(m ast.Node) bool {
+								call, ok := m.(*ast.CallExpr)
+								if ok {
+									for _, a := range call.Args {
+										if isObj(p, a, o) {
+											uses++
+											if fn := Callee(p, call); fn == nil || fn.Name() != "Equals" {
+												onlyEquals = false
+											}
+										}
+									}
+								}
+								return true
+							})
+							if tested {
+								good, why = true, "tested against nil"
+							} else if uses > 0 && onlyEquals {
+								// also no other use (return, store)
+								other := containsNode(fd.Body, func(m ast.Node) bool {
+									switch z := m.(type) {
+									case *ast.ReturnStmt:
+										for _, r := range z.Results {
+											if isObj(p, r, o) {
+												return true
+											}
+										}
+									case *ast.AssignStmt:
+										for _, r := range z.Rhs {
+											if isObj(p, r, o) {
+												return true
+											}
+										}
+									}
+									return false
+								})
+								if !other {
+									good, why = true, "only handed to Equals, which answers false to nil"
+								}
+							}
+						}
+					}
+				case *ast.BinaryExpr:
+					if (par.Op == token.EQL || par.Op == token.NEQ) && (isNilIdent(par.X) || isNilIdent(par.Y)) {
+						good, why = true, "compared with nil"
+					}
+				case *ast.CallExpr:
+					if fn := Callee(p, par); fn != nil && fn.Name() == "Equals" {
+						good, why = true, "handed to Equals, which answers false to nil"
+					}
+				case *ast.TypeAssertExpr, *ast.TypeSwitchStmt:
+					good, why = true, "type-tested (nil matches no type)"
+				case *ast.ExprStmt:
+					good, why = true, "unused"
+				}
+				if !good {
+					if _, isTS := parent.(*ast.AssignStmt); isTS {
+						if len(stack) >= 3 {
+							if _, ok := stack[len(stack)-3].(*ast.TypeSwitchStmt); ok {
+								good, why = true, "type-switched (nil matches no case but default)"
+							}
+						}
+					}
+				}
+				c.check(good, key, ix, why, "the entry read from a map of Objects is used as it is ("+w.Src(parent)+"): for a missing key - e.g. one deleted while iterating - this is a Go nil that becomes a script value and makes the host's next call on it panic")
+				return true
+			})
+		})
+	}
+	if n < 8 {
+		c.fail("map-read/count", nil, fmt.Sprintf("only %d reads of map[string]Object found", n))
+	}
 }
